@@ -18,6 +18,7 @@ def configs(tier):
         cs += [
             dict(stages=[1], init_fail=False, work_fail=False, callers=2, batch_size=2, capacity=2),
             dict(stages=[1], init_fail=False, work_fail=False, callers=1, batch_size=3, capacity=2, cycles=2),
+            dict(stages=[1, 1], init_fail=False, work_fail=True, callers=1, batch_size=2, batch_stage=1, capacity=2),
         ]
     return cs
 
